@@ -107,6 +107,7 @@ def run(ctx: Ctx):
     check_axis_rotations(ctx)
     check_enu_matrices(ctx)
     check_position_frames(ctx)
+    check_histories(ctx)
     check_acr(ctx)
     check_azel(ctx)
     ctx.traces = ctx.evaluations
@@ -478,6 +479,126 @@ def shape_consistency(ctx, case, six, ref_sys, ref_rows, dvecs, dvels, E, enu):
 
 
 # --------------------------------------------------------------------------------------------------
+# short histories on one object: read a conversion, replace the reference position / the ellipsoid, read again
+
+
+def check_histories(ctx: Ctx):
+    Position, PositionDelta, PosVel, PosVelDelta, ellipsoid, rotation, T = _imp()
+    rng = ctx.rng
+    names = list(ellipsoid._ELLIPSOIDS)
+    n = ctx.budget(120, 6000)
+    for _ in range(n):
+        ell = rng.choice(names)
+        kind = rng.choice(["trs->enu", "enu->trs", "trs->acr", "acr->trs", "posvel trs->enu", "ellipsoid"])
+        m = rng.choice([1, 1, 2, 3])
+        shape = rng.choice(["1d", "1xk"]) if m == 1 else "nxk"
+        llhA = [gen_ref_llh(rng) for _ in range(m)]
+        llhB = [gen_ref_llh(rng) for _ in range(m)]
+        statesA = [gen_state(rng) for _ in range(m)]
+        statesB = [gen_state(rng) for _ in range(m)]
+        d = [gen_vec(rng, -3, 6) for _ in range(m)]
+        w = [gen_vec(rng, -3, 3) for _ in range(m)]
+        sysB = rng.choice(["trs", "llh"])
+        ell2 = rng.choice([x for x in names if x != ell])
+        read_first = rng.random() < 0.85
+        case = {"fn": "history: read, replace, read", "kind": kind, "ellipsoid": ell, "ellipsoid2": ell2, "shape": shape, "refA_llh": llhA,
+                "refB_llh": llhB, "refB_system": sysB, "statesA": statesA, "statesB": statesB, "delta": d, "dvel": w,
+                "read_before_replacing": read_first}
+        ctx.case(case, nontrivial=True)
+        ctx.count(f"history:{kind}")
+        try:
+            one_history(ctx, case)
+        except Exception as e:
+            gviolate(ctx, f"raises:history:{kind}:{type(e).__name__}", f"history {kind} raised {type(e).__name__}: {e}", case)
+
+
+def one_history(ctx, c):
+    Position, PositionDelta, PosVel, PosVelDelta, ellipsoid, rotation, T = _imp()
+    drv = ctx.driver
+    kind, shape = c["kind"], c["shape"]
+    E, E2 = ellipsoid.get(c["ellipsoid"]), ellipsoid.get(c["ellipsoid2"])
+    m = len(c["delta"])
+
+    def to_trs(rows, ell_):
+        return [np.asarray(T.llh2trs(np.array(r, dtype=float), ell_), dtype=float).reshape(-1, 3)[0].tolist() for r in rows]
+
+    def pos(rows_llh, system, ell_):
+        return Position(as_shape(rows_llh if system == "llh" else to_trs(rows_llh, ell_), shape), system, ellipsoid=ell_)
+
+    def pv(states):
+        return PosVel(as_shape([list(r) + list(v) for r, v in states], shape), "trs")
+
+    def scale(rows):
+        return max(float(np.linalg.norm(np.array(rows, dtype=float), axis=1).max()), 1e-300)
+
+    if kind in ("trs->enu", "enu->trs"):
+        src, dst = kind.split("->")
+        delta = PositionDelta(as_shape(c["delta"], shape), src, ref_pos=pos(c["refA_llh"], "trs", E))
+        if c["read_before_replacing"]:
+            getattr(delta, dst)
+        B = pos(c["refB_llh"], c["refB_system"], E)
+        delta.ref_pos = B
+        got = rows_of(np.asarray(getattr(delta, dst), dtype=float))
+        fresh = rows_of(np.asarray(getattr(PositionDelta(as_shape(c["delta"], shape), src, ref_pos=pos(c["refB_llh"], c["refB_system"], E)), dst), dtype=float))
+        tol = REL * scale(c["delta"])
+        if got.shape != fresh.shape or float(np.max(np.abs(got - fresh))) > tol:
+            gviolate(ctx, f"stale-after-ref_pos-replaced:{dst}", f"delta.{dst} after `delta.ref_pos = B` is {got.tolist()} but a delta built on B gives {fresh.tolist()}", c)
+        # the frame is the one of the reference position it has *now*: projections on the triad at B (known geodetic coordinates)
+        for i in range(m):
+            lat, lon, h = c["refB_llh"][i]
+            e2t = np.array([[-math.sin(lon), -math.cos(lon) * math.sin(lat), math.cos(lon) * math.cos(lat)],
+                            [math.cos(lon), -math.sin(lon) * math.sin(lat), math.sin(lon) * math.cos(lat)],
+                            [0.0, math.cos(lat), math.sin(lat)]])
+            dv = np.array(c["delta"][i])
+            want = e2t.T @ dv if dst == "enu" else e2t @ dv
+            atol = (2e-3 / E.b * 2 + 1e-12) * float(np.linalg.norm(dv)) + 1e-300
+            if float(np.max(np.abs(got[i] - want))) > atol:
+                gviolate(ctx, f"frame-of-current-ref_pos:{dst}", f"delta.{dst} after `delta.ref_pos = B` is {got[i].tolist()} but in the East/North/Up triad at B it is {want.tolist()}", {**c, "i": i})
+            cs = (float(np.cos(lat)), float(np.sin(lat)), float(np.cos(lon)), float(np.sin(lon)))
+            if c["refB_system"] == "llh":
+                mod = floats(drv.ask1(f"c06 f {'dtrs2enuCS' if dst == 'enu' else 'denu2trsCS'} {fline(*cs)} {fline(*dv)}"))
+                if worst(got[i], mod) > 8 * 2.3e-16 * float(np.linalg.norm(dv)) + 1e-300:
+                    gdisagree(ctx, f"history: delta.{dst} after ref_pos replaced (Float model of the frame at the new reference)", {**c, "i": i}, mod, got[i].tolist())
+    elif kind in ("trs->acr", "acr->trs", "posvel trs->enu"):
+        src, dst = ("trs", "enu") if kind == "posvel trs->enu" else kind.split("->")
+        vals = [list(a) + list(b) for a, b in zip(c["delta"], c["dvel"])]
+        delta = PosVelDelta(as_shape(vals, shape), src, ref_pos=pv(c["statesA"]))
+        if c["read_before_replacing"]:
+            getattr(delta, dst)
+        delta.ref_pos = pv(c["statesB"])
+        got = rows_of(np.asarray(getattr(delta, dst), dtype=float))
+        fresh = rows_of(np.asarray(getattr(PosVelDelta(as_shape(vals, shape), src, ref_pos=pv(c["statesB"])), dst), dtype=float))
+        tol = 1e-7 * scale(vals)
+        if got.shape != fresh.shape or float(np.max(np.abs(got - fresh))) > tol:
+            gviolate(ctx, f"stale-after-ref_pos-replaced:{dst}", f"posvel delta.{dst} after `delta.ref_pos = B` is {got.tolist()} but a delta built on B gives {fresh.tolist()}", c)
+        if dst == "acr":
+            for i in range(m):
+                r, v = np.array(c["statesB"][i][0]), np.array(c["statesB"][i][1])
+                rhat = r / np.linalg.norm(r)
+                chat = np.cross(r, v)
+                chat /= np.linalg.norm(chat)
+                ahat = np.cross(chat, rhat)
+                sin_rv = float(np.linalg.norm(np.cross(rhat, v / np.linalg.norm(v))))
+                dv = np.array(c["delta"][i])
+                want = np.array([np.dot(dv, ahat), np.dot(dv, chat), np.dot(dv, rhat)])
+                if float(np.max(np.abs(got[i][:3] - want))) > (1e-9 + 1e-13 / max(sin_rv, 1e-12)) * float(np.linalg.norm(dv)) + 1e-300:
+                    gviolate(ctx, "frame-of-current-ref_pos:acr", f"delta.acr after `delta.ref_pos = B` is {got[i][:3].tolist()} but along/cross/radial at B give {want.tolist()}", {**c, "i": i})
+    else:  # the ellipsoid of a reference position is replaced after its frame was read
+        P = pos(c["refA_llh"], "trs", E)
+        xyz = np.asarray(P, dtype=float).copy()
+        if c["read_before_replacing"]:
+            P.trs2enu, P.llh
+        P.ellipsoid = E2
+        got = np.asarray(P.trs2enu, dtype=float).reshape(-1, 3, 3)
+        got_llh = rows_of(np.asarray(P.llh, dtype=float))
+        Q = Position(xyz.copy(), "trs", ellipsoid=E2)
+        fresh = np.asarray(Q.trs2enu, dtype=float).reshape(-1, 3, 3)
+        fresh_llh = rows_of(np.asarray(Q.llh, dtype=float))
+        if float(np.max(np.abs(got - fresh))) > 1e-13 or float(np.max(np.abs(got_llh - fresh_llh) / np.array([1, 1, 1e7]))) > 1e-13:
+            gviolate(ctx, "stale-after-ellipsoid-replaced", f"after `pos.ellipsoid = {c['ellipsoid2']}` trs2enu/llh are still those of {c['ellipsoid']}: llh {got_llh.tolist()} vs {fresh_llh.tolist()}", c)
+
+
+# --------------------------------------------------------------------------------------------------
 # along / cross / radial
 
 
@@ -631,19 +752,37 @@ def check_azel(ctx: Ctx):
                 if not any(d):
                     d = [1.0, 2.0, 3.0]
             targets.append([a + b for a, b in zip(p, d)])
-        case = {"fn": "azimuth/elevation/zenith_distance", "ellipsoid": ell, "shape": shape, "ref_trs": trs_rows, "target_trs": targets}
+        # observer and target are handed over in any registered system (trs / llh); the angles must not depend on it
+        obs_sys = rng.choice(["trs", "llh"])
+        tgt_sys = rng.choice(["trs", "llh"])
+        if tgt_sys == "llh":
+            tgt_llh = [np.asarray(T.trs2llh(np.array(t), E), dtype=float).reshape(-1, 3)[0].tolist() for t in targets]
+            # ground truth of the target: the Cartesian point of exactly these geodetic coordinates
+            targets = [np.asarray(T.llh2trs(np.array(g), E), dtype=float).reshape(-1, 3)[0].tolist() for g in tgt_llh]
+        case = {"fn": "azimuth/elevation/zenith_distance", "ellipsoid": ell, "shape": shape, "observer_system": obs_sys,
+                "target_system": tgt_sys, "ref_llh": llh_rows, "ref_trs": trs_rows, "target_trs": targets,
+                "target_llh": tgt_llh if tgt_sys == "llh" else None}
         ctx.case(case, nontrivial=True)
         ctx.count(f"azel:shape={shape}")
+        ctx.count(f"azel:observer={obs_sys},target={tgt_sys}")
         try:
-            ref = Position(as_shape(trs_rows, shape), "trs", ellipsoid=E, other=Position(as_shape(targets, shape), "trs", ellipsoid=E))
+            other = Position(as_shape(tgt_llh if tgt_sys == "llh" else targets, shape), tgt_sys, ellipsoid=E)
+            ref = Position(as_shape(llh_rows if obs_sys == "llh" else trs_rows, shape), obs_sys, ellipsoid=E, other=other)
             az = np.atleast_1d(np.asarray(ref.azimuth, dtype=float))
             el = np.atleast_1d(np.asarray(ref.elevation, dtype=float))
             zd = np.atleast_1d(np.asarray(ref.zenith_distance, dtype=float))
             e2t = np.asarray(ref.enu2trs, dtype=float).reshape(-1, 3, 3)
             llh = np.asarray(ref.llh.val, dtype=float).reshape(-1, 3)
+            # the *_to() methods on a second, uncached observer object give the cached properties' values
+            ref2 = Position(as_shape(llh_rows if obs_sys == "llh" else trs_rows, shape), obs_sys, ellipsoid=E)
+            az2 = np.atleast_1d(np.asarray(ref2.azimuth_to(other), dtype=float))
+            el2 = np.atleast_1d(np.asarray(ref2.elevation_to(other), dtype=float))
+            zd2 = np.atleast_1d(np.asarray(ref2.zenith_distance_to(other), dtype=float))
         except Exception as e:
             gviolate(ctx, f"raises:azel:{type(e).__name__}", f"azimuth/elevation raised {type(e).__name__}: {e}", case)
             continue
+        if az2.shape != az.shape or not (np.allclose(az2, az, rtol=0, atol=1e-12) and np.allclose(el2, el, rtol=0, atol=1e-12) and np.allclose(zd2, zd, rtol=0, atol=1e-12)):
+            gviolate(ctx, "azel:property-vs-method", f"azimuth/elevation/zenith_distance properties {az.tolist(), el.tolist(), zd.tolist()} differ from azimuth_to/elevation_to/zenith_distance_to {az2.tolist(), el2.tolist(), zd2.tolist()}", case)
         if az.shape != (m,) or el.shape != (m,) or zd.shape != (m,):
             gviolate(ctx, f"shape:azel:{shape}", f"azimuth has shape {az.shape} for {m} positions", case)
             continue
@@ -696,6 +835,8 @@ def replay(payload):
             six = c.get("dvel") is not None
             one_frame(ctx, c, c["ellipsoid"], ellipsoid.get(c["ellipsoid"]), c["shape"], c["ref_sys"], c["ref_llh"], c["ref_trs"],
                       c["delta"], c.get("dvel") or [[0.0, 0.0, 0.0]] * len(c["delta"]), six)
+        elif fn == "history: read, replace, read":
+            one_history(ctx, c)
         elif fn == "corpus":
             corpus_case(ctx, c)
         else:
